@@ -1136,6 +1136,7 @@ static void mi_segment_abandon(mi_segment_t* segment, mi_segments_tld_t* tld) {
   _mi_stat_increase(&tld->stats->segments_abandoned, 1);
   mi_segments_track_size(-((long)mi_segment_size(segment)), tld);
   segment->thread_id = 0;
+  segment->dont_free = false;      // (can still be set if we are called from a force abandon)
   segment->abandoned_visits = 1;   // from 0 to 1 to signify it is abandoned
   if (segment->was_reclaimed) {
     tld->reclaim_count--;
@@ -1448,19 +1449,14 @@ static void mi_segment_force_abandon(mi_segment_t* segment, mi_segments_tld_t* t
       {
         // abandon the page if it is still in-use (this will free it if possible as well)
         mi_assert_internal(segment->used > 0);
-        if (segment->used == segment->abandoned+1) {
-          // the last page.. abandon and return as the segment will be abandoned after this
-          // and we should no longer access it.
-          segment->dont_free = false;
-          _mi_page_force_abandon(page);
-          return;
-        }
-        else {
-          // abandon and continue
-          _mi_page_force_abandon(page);
-          // it might be freed, reset the slice (note: relies on coalesce setting the slice_offset)
-          slice = mi_slice_first(slice);
-        }
+        // note: keep `dont_free` set, also for the last page: the delayed frees that are processed as part of the
+        // abandon may free this page (and other pages of this segment) and we still look at the page afterwards.
+        _mi_page_force_abandon(page);
+        // if this was the last used page (perhaps only because the other ones just got freed), the segment is
+        // abandoned now (and may already be reclaimed by another thread): we should no longer access it.
+        if (mi_atomic_load_relaxed(&segment->thread_id) != _mi_thread_id()) return;
+        // it might be freed, reset the slice (note: relies on coalesce setting the slice_offset)
+        slice = mi_slice_first(slice);
       }
     }
     slice = slice + slice->slice_count;
